@@ -128,7 +128,112 @@ func TestHarness(t *testing.T) {
 				}
 			}
 		}
+	case "sys":
+		// Params: which families (bit mask via list in Cases), n per family
+		var fams []string
+		json.Unmarshal(job.Cases, &fams)
+		has := func(f string) bool {
+			for _, x := range fams {
+				if x == f {
+					return true
+				}
+			}
+			return false
+		}
+		for i := 0; i < job.N; i++ {
+			seed := job.Seed*7919 + int64(i)
+			cfg := i % 4
+			stream := (i/4)%3 != 0
+			chunk := []int{1, -1, 0}[(i/4)%3]
+			if has("conc") {
+				switch cfg {
+				case 0:
+					emit(FamConc(jsonRawCodec(), seed))
+				case 1:
+					emit(FamConc(jsonBytesCodec(), seed))
+				case 2:
+					emit(FamConc(cborRawCodec(), seed))
+				default:
+					emit(FamConc(cborBytesCodec(), seed))
+				}
+			}
+			if has("hub") {
+				switch cfg {
+				case 0:
+					emit(FamHub(jsonRawCodec(), seed))
+				case 1:
+					emit(FamHub(jsonBytesCodec(), seed))
+				case 2:
+					emit(FamHub(cborRawCodec(), seed))
+				default:
+					emit(FamHub(cborBytesCodec(), seed))
+				}
+			}
+			if has("wire") {
+				switch cfg {
+				case 0:
+					emit(FamWire(jsonRawCodec(), seed))
+				case 1:
+					emit(FamWire(jsonBytesCodec(), seed))
+				case 2:
+					emit(FamWire(cborRawCodec(), seed))
+				default:
+					emit(FamWire(cborBytesCodec(), seed))
+				}
+				if i == 0 {
+					emit(FamForeign(seed))
+				}
+			}
+			for _, f := range []string{"values", "errors", "closures", "nest"} {
+				if !has(f) {
+					continue
+				}
+				np := job.Params["percase"]
+				if np == 0 {
+					np = 12
+				}
+				switch cfg {
+				case 0:
+					emit(runFam(f, jsonRawCodec(), stream, chunk, seed, np))
+				case 1:
+					emit(runFam(f, jsonBytesCodec(), stream, chunk, seed, np))
+				case 2:
+					emit(runFam(f, cborRawCodec(), stream, chunk, seed, np))
+				default:
+					emit(runFam(f, cborBytesCodec(), stream, chunk, seed, np))
+				}
+			}
+		}
+	case "config":
+		// C08: one seeded workload under every configuration
+		for i := 0; i < job.N; i++ {
+			seed := job.Seed*104729 + int64(i)
+			for _, st := range []struct {
+				stream bool
+				chunk  int
+			}{{false, 0}, {true, 1}, {true, -1}, {true, 0}} {
+				for _, f := range []string{"values", "errors", "closures"} {
+					emit(runFam(f, jsonRawCodec(), st.stream, st.chunk, seed, 10))
+					emit(runFam(f, jsonBytesCodec(), st.stream, st.chunk, seed, 10))
+					emit(runFam(f, cborRawCodec(), st.stream, st.chunk, seed, 10))
+					emit(runFam(f, cborBytesCodec(), st.stream, st.chunk, seed, 10))
+				}
+			}
+		}
 	default:
 		t.Fatalf("unknown family %q", job.Family)
+	}
+}
+
+func runFam[T any](f string, c Codec[T], stream bool, chunk int, seed int64, n int) SysRecord {
+	switch f {
+	case "values":
+		return FamValues(c, stream, chunk, seed, n)
+	case "errors":
+		return FamErrors(c, stream, chunk, seed, n)
+	case "closures":
+		return FamClosures(c, stream, chunk, seed, n)
+	default:
+		return FamNest(c, stream, chunk, seed)
 	}
 }
